@@ -208,6 +208,10 @@ def _worker_loop(
                 continue
             elif isinstance(r, _ResumeIteration):
                 iteration_end = False
+                # A failure of an earlier epoch start must not be reported again, and the names
+                # below were deleted after the previous acknowledgement
+                init_exception = None
+                initial_state = None
 
                 if isinstance(dataset, IterDataPipe):
                     assert r.seed is not None
